@@ -393,7 +393,92 @@ func runC06Space(sh *core.Shard, a props.Args, n int, noTimeout bool, beliefs []
 	return complete
 }
 
+// runC06LocalPreference: a node keeps serving locally while ANY local upstream
+// remains, whatever the order in which its upstreams disconnect, although it
+// believes (rightly) that another node serves the endpoint too.
+func runC06LocalPreference(sh *core.Shard) {
+	a, err := StartNode(NodeOpts{ID: "lp-a"})
+	if err != nil {
+		sh.Inconcl("local-preference rig: %v", err)
+		return
+	}
+	defer a.Stop()
+	b, err := StartNode(NodeOpts{ID: "lp-b"})
+	if err != nil {
+		sh.Inconcl("local-preference rig: %v", err)
+		return
+	}
+	defer b.Stop()
+	perms := [][]int{{0}, {0, 1}, {1, 0}, {0, 1, 2}, {0, 2, 1}, {1, 0, 2}, {1, 2, 0}, {2, 0, 1}, {2, 1, 0}}
+	for pi, order := range perms {
+		ep := fmt.Sprintf("lp%d", pi)
+		rb, err := ListenHTTP(b, ep, "remote", ListenOpts{})
+		if err != nil {
+			sh.Inconcl("listen: %v", err)
+			return
+		}
+		a.Cluster().RemoveNode(b.ID)
+		a.Cluster().AddNode(&cluster.Node{ID: b.ID, Status: cluster.NodeStatusActive, ProxyAddr: b.ProxyAddr(), AdminAddr: b.AdminAddr(), Endpoints: map[string]int{ep: 1}})
+		var ups []*HTTPUpstream
+		for k := range order {
+			u, err := ListenHTTP(a, ep, fmt.Sprintf("local%d", k), ListenOpts{})
+			if err != nil {
+				sh.Inconcl("listen: %v", err)
+				return
+			}
+			ups = append(ups, u)
+		}
+		remaining := len(order)
+		wait := func() bool {
+			return core.WaitUntil(20*time.Second, 2*time.Millisecond, func() bool {
+				return a.Cluster().LocalNode().Endpoints[ep] == remaining && b.Cluster().LocalNode().Endpoints[ep] == 1
+			})
+		}
+		if !wait() {
+			sh.Inconcl("local-preference: upstreams did not register")
+			return
+		}
+		for step := 0; step <= len(order); step++ {
+			// 2*remaining+1 requests: every local upstream gets its turn
+			for q := 0; q < 2*remaining+1; q++ {
+				resp, err := Get(a.ProxyAddr(), "127.0.0.1", "/lp", [][2]string{{"x-piko-endpoint", ep}}, 10*time.Second)
+				sh.Eval()
+				sh.Count("local_preference_requests", 1)
+				if err != nil {
+					sh.Inconcl("local-preference request: %v", err)
+					return
+				}
+				st := resp.Header.Get("X-Stamp")
+				desc := fmt.Sprintf("%d local upstreams, disconnect order %v, after %d disconnects (%d local upstreams remain, the other node also serves it)", len(order), order, step, remaining)
+				if remaining > 0 && stampNode(st) != a.ID {
+					sh.Violate("local-not-preferred", fmt.Sprintf("%s: the request was answered %d by %q instead of a local upstream", desc, resp.Status, st), map[string]any{"order": order, "step": step})
+					return
+				}
+				if remaining == 0 && stampNode(st) != b.ID {
+					sh.Violate("expected-one-hop", fmt.Sprintf("%s: expected to be served through the other node, got %d %q", desc, resp.Status, st), map[string]any{"order": order, "step": step})
+					return
+				}
+			}
+			if step < len(order) {
+				ups[order[step]].Shutdown()
+				remaining--
+				if !wait() {
+					sh.Violate("local-not-preferred", fmt.Sprintf("%d local upstreams, disconnect order %v: after disconnect %d the node registers %d upstreams for the endpoint, the harness holds %d", len(order), order, step+1, a.Cluster().LocalNode().Endpoints[ep], remaining), map[string]any{"order": order, "step": step})
+					return
+				}
+			}
+		}
+		rb.Shutdown()
+		sh.Count("local_preference_orders", 1)
+		sh.Nontrivial(core.Hash("local-preference", order))
+	}
+}
+
 func runC06(sh *core.Shard, a props.Args) {
+	if a.Shard == a.NShards-1 {
+		fmt.Println("CASE C06 local preference under disconnect orders")
+		runC06LocalPreference(sh)
+	}
 	// work units: (n, noTimeout, chunk of belief matrices)
 	type unit struct {
 		n       int
@@ -452,7 +537,7 @@ func init() {
 			"counters are read from /metrics at quiescence (in-flight gauge zero), so a loop that never terminates shows up as a watchdog/inconclusive plus amplified counts",
 			"requests are sequential: the property is about routing decisions, not concurrency (C20)",
 		},
-		RequireCounters: []string{"forwarded_requests", "forwarded_then_502", "requests"},
+		RequireCounters: []string{"forwarded_requests", "forwarded_then_502", "requests", "local_preference_orders"},
 		ExhaustiveWhenAll: false,
 		Run:             runC06,
 	})
